@@ -351,10 +351,10 @@ pub fn run(ctx: &Ctx) -> Report {
     }
     let mut rep = Report::new(
         st,
-        "jobs = all 480 capacity thresholds +-2 under rotating version options {auto, 1, vmin-1, vmin, vmin+1, 40} and forced/automatic mode, level, mask; every (version, level, mode) cell at capacity with automatic mask; special lengths {0,1,2,7089..7091,8000,65535,65536,...} x 13 payload generators (all-zero, all-0xFF, pad look-alikes, mode-indicator look-alikes, real-world tokens and magic prefixes, zero runs, periodic, alternating extremes, ...); crafted byte payloads at every (version, level): data area equal to each of the 8 mask patterns and their complements, uniform, finder look-alike rows/columns, stripes, 2x2 blocks (24 targets: every counter of the scoring code at its extreme) and 8 per-block codeword shapes (all padding pattern, zero blocks, identical blocks, leading zeros); arbitrary strings of length 0..8000 with random option combinations (forced modes only when their alphabet contains the input); every 8th build follows a caught out-of-contract panic (forced mode on a foreign character) on the same thread; each build runs under catch_unwind in a profile with overflow-checks and debug-assertions enabled; outcome must be Ok / Err(EncodedData) / Err(SpecifiedVersion); inputs of 20,000 .. 4,000,000 bytes (thorough: up to 16,000,000) are built in child processes on a thread with the default 2 MiB stack (stack exhaustion or allocation failure = abnormal termination); build() is also called from the destructors of callers' thread-locals while 3..32 threads of a child process wind down (registered before the thread's first build, after it, or without one); watchdog re-runs any job slower than 20 s in a child process (120 s limit); thorough adds two Miri stages (240 small builds+renders; 16 builds at versions 5..40, one interpreter process each); distinct key = (options, len, payload hash); every case non-trivial",
+        "jobs = all 480 capacity thresholds +-2 under rotating version options {auto, 1, vmin-1, vmin, vmin+1, 40} and forced/automatic mode, level, mask; every (version, level, mode) cell at capacity with automatic mask; special lengths {0,1,2,7089..7091,8000,65535,65536,...} x 17 payload generators (all-zero, all-0xFF, pad look-alikes, mode-indicator look-alikes, real-world tokens and magic prefixes, zero runs, periodic, alternating extremes, ...); crafted byte payloads at every (version, level): data area equal to each of the 8 mask patterns and their complements, uniform, finder look-alike rows/columns, stripes, 2x2 blocks (24 targets: every counter of the scoring code at its extreme) and 8 per-block codeword shapes (all padding pattern, zero blocks, identical blocks, leading zeros); arbitrary strings of length 0..8000 with random option combinations (forced modes only when their alphabet contains the input); every 8th build follows a caught out-of-contract panic (forced mode on a foreign character) on the same thread; each build runs under catch_unwind in a profile with overflow-checks and debug-assertions enabled; outcome must be Ok / Err(EncodedData) / Err(SpecifiedVersion); inputs of 20,000 .. 4,000,000 bytes (thorough: up to 16,000,000) are built in child processes on a thread with the default 2 MiB stack (stack exhaustion or allocation failure = abnormal termination); build() is also called from the destructors of callers' thread-locals while 3..32 threads of a child process wind down (registered before the thread's first build, after it, or without one); watchdog re-runs any job slower than 20 s in a child process (120 s limit); thorough adds two Miri stages (240 small builds+renders; 16 builds at versions 5..40, one interpreter process each); distinct key = (options, len, payload hash); every case non-trivial",
     );
-    rep.expected_sets = vec![("cells_at_capacity", 480), ("option_shapes", 16), ("generators", 13), ("crafted_targets", 24), ("crafted_shapes", 11), ("version_level_built", 160)];
-    rep.required_sets = vec![("cells_at_capacity", 480), ("option_shapes", 16), ("generators", 13), ("crafted_targets", 24), ("crafted_shapes", 11)];
+    rep.expected_sets = vec![("cells_at_capacity", 480), ("option_shapes", 16), ("generators", 17), ("crafted_targets", 24), ("crafted_shapes", 11), ("version_level_built", 160)];
+    rep.required_sets = vec![("cells_at_capacity", 480), ("option_shapes", 16), ("generators", 17), ("crafted_targets", 24), ("crafted_shapes", 11)];
     rep.min_evaluations = 20_000;
     rep.extra = extra;
     rep.assumptions = vec![
